@@ -36,6 +36,7 @@ namespace vf_stack
             unsigned           id_floor;
             std::size_t        block_index;
             bool               purged = false; // shrink_to_fit since the marker was taken
+            bool               no_replay = false; // a refused request moved the stack on since: later addresses are not those of a replay
         };
         struct unit
         {
@@ -47,6 +48,7 @@ namespace vf_stack
             std::vector<mark>    marks;
             std::vector<const char*> used; // upstream blocks in use, in order
             std::size_t          cached = 0;
+            int                  refused = 0;
             std::map<const char*, const char*> block_end;
         };
 
@@ -274,6 +276,67 @@ namespace vf_stack
             vf::count(e);
         }
 
+        // a request above next_capacity(): documented to end in bad_allocation_size (on a fixed source the growth fails first). The
+        // stack has to stay usable: the next request is served and accounted for like any other, wherever the stack stands now
+        // (the library moves on to the next block before it rejects the size; the model follows the one-byte request that comes next)
+        void do_refused(unit& u)
+        {
+            S& s = *u.obj;
+            if (u.refused >= 2 || s.next_capacity() > (std::size_t(1) << 18))
+                return;
+            ++u.refused;
+            auto nc0  = s.next_capacity();
+            auto cap0 = s.capacity_left();
+            auto acq0 = u.src->acquisitions();
+            auto size = std::max(nc0, cap0) + 1 + r.below(64);
+            op("refused request %zu (capacity_left %zu, next_capacity %zu)", size, cap0, nc0);
+            also_scope as("C06", "C01 C05 C18");
+            try
+            {
+                void* p = s.allocate(size, 1);
+                (void)p;
+                viol("C18", key("C18", "above-maximum-succeeded"), "allocate(%zu) succeeded although capacity_left() was %zu and next_capacity() %zu", size, cap0, nc0);
+            }
+            catch (bad_allocation_size&)
+            {
+                count_ev("refused_oversize");
+                flag("refused");
+            }
+            catch (out_of_memory&)
+            {
+                count_ev("out_of_memory_thrown");
+                u.src->check();
+                if (s.capacity_left() != cap0)
+                    viol("C18", key("C18", "failed-alloc-changed-capacity"), "capacity_left changed %zu -> %zu across a failed allocation", cap0, s.capacity_left());
+                return;
+            }
+            u.src->check();
+            u.sh.sweep();
+            // everything below the top is untouched and the markers still order: the top is not below any marker taken before
+            for (auto& m : u.marks)
+                m.no_replay = true;
+            for (auto& m : u.marks)
+                if (s.top() < m.m)
+                    viol("C06", key("C06", "marker-order"), "after a refused request top() compares less than a marker taken before it");
+            auto nc1  = s.next_capacity();
+            auto cap1 = s.capacity_left();
+            auto att1 = u.src->acquisitions();
+            (void)att1;
+            void* p = nullptr;
+            try
+            {
+                p = s.allocate(1, 1);
+            }
+            catch (out_of_memory&)
+            {
+                return;
+            }
+            u.src->check();
+            // moved to another block by the refused request: the capacity there is what next_capacity() had announced before it
+            note_alloc(u, p, 1, 1, u.src->block_of(static_cast<char*>(p)) == u.used.back() ? cap1 : cap0, u.src->block_of(static_cast<char*>(p)) == u.used.back() ? nc1 : nc0, acq0, false);
+            frg.check("allocation after a refused request");
+        }
+
         // traits-level deallocate: a no-op for the memory, but it moves the leak counter (C15)
         void do_dealloc(unit& u)
         {
@@ -378,7 +441,7 @@ namespace vf_stack
             u.log.resize(m.log_pos);
             flag("unwind");
             count_ev("unwinds");
-            if (!expect.empty() && r.chance(70))
+            if (!expect.empty() && !m.no_replay && r.chance(70))
             {
                 op("replay %zu requests", expect.size());
                 for (auto& e : expect)
@@ -723,6 +786,8 @@ namespace vf_stack
                     op("second stack");
                     units.push_back(fresh(placement::heap));
                 }
+                else if (x < aw + 362 && member)
+                    do_refused(u);
                 else if (units.size() > 1 && x > 990)
                 {
                     auto i = r.below(units.size());
